@@ -54,6 +54,27 @@ fn mid_knapsack(r: &mut Rng) -> LinearModel {
     m
 }
 
+/// the minimisation twin: a covering problem (`min cost, weights >= need`) with correlated costs — a search cut short holds
+/// an incumbent ABOVE the optimum while the bound is below it
+fn mid_cover(r: &mut Rng) -> LinearModel {
+    let n = 12 + r.below(2);
+    let mut m = LinearModel::new();
+    for i in 0..n { m.add_variable(&format!("b{}", i), VariableType::Boolean); }
+    let w: Vec<f64> = (0..n).map(|_| 10.0 + r.below(30) as f64).collect();
+    let c: Vec<f64> = w.iter().map(|x| x + 5.0 + r.below(3) as f64).collect();
+    let need = (w.iter().sum::<f64>() * 0.55).floor();
+    m.add_named_constraint(w, Comparison::GreaterOrEqual, need, "need");
+    m.set_objective(c, OptimizationType::Min);
+    m
+}
+
+/// a mixed-integer model without an objective (`Satisfy`, zero coefficients)
+fn satisfy_integer(r: &mut Rng) -> LinearModel {
+    let (lm, _) = gen_lp::model(r, &LpCfg { doms: Doms::Integer, naming: 0, max_vars: 4, feasible_pct: 90, ..LpCfg::default() });
+    let (obj, _, off, rows, vars, dom) = lm.into_parts();
+    LinearModel::new_from_parts(vec![0.0; obj.len()], OptimizationType::Satisfy, off, rows, vars, dom)
+}
+
 /// a knapsack whose profits are thousandths: every objective value is below 1, where an "epsilon relative to the
 /// incumbent" silently turns absolute
 fn small_scale_knapsack(r: &mut Rng) -> LinearModel {
@@ -87,14 +108,14 @@ fn raw_status(o: &Outcome) -> String {
 /// how the options reach the solver: the `MilpOptions` struct of `solve_milp_lp_problem_with`, or the builder methods
 /// `Microlp::new().with_mip_gap(..).with_time_limit(..)` + `Solver::solve`
 #[derive(Clone, Copy, PartialEq)]
-pub enum Entry { Direct, Builder, Door }
+pub enum Entry { Direct, Builder, Door, DoorAux }
 
 fn one(lm: &LinearModel, lms: &str, base: &Outcome, gap: (Option<f64>, &str), limit: Option<u64>, fam: &str, fixed: bool, out: &mut Vec<Case>) {
     one_entry(Entry::Direct, lm, lms, base, gap, limit, fam, fixed, out);
 }
 
 fn one_entry(entry: Entry, lm: &LinearModel, lms: &str, base: &Outcome, gap: (Option<f64>, &str), limit: Option<u64>, fam: &str, fixed: bool, out: &mut Vec<Case>) {
-    let kind = match entry { Entry::Direct => SolverKind::Milp, Entry::Builder => SolverKind::BuilderMicrolp, Entry::Door => SolverKind::BuilderDoorMicrolp };
+    let kind = match entry { Entry::Direct => SolverKind::Milp, Entry::Builder => SolverKind::BuilderMicrolp, Entry::Door => SolverKind::BuilderDoorMicrolp, Entry::DoorAux => SolverKind::BuilderDoorMicrolpAux };
     let opts = Opts { time_limit_ns: limit, mip_gap_bits: gap.0.map(f64::to_bits), simplex_limit: 0 };
     // the raw answer of microlp is reproducible only when the clock plays no role
     // (a limit of a second or more never fires on these models)
@@ -113,22 +134,24 @@ fn one_entry(entry: Entry, lm: &LinearModel, lms: &str, base: &Outcome, gap: (Op
     let res = gen_lp::result(&o);
     let mut c = Case::default();
     c.imp = res.clone();
-    if deterministic && entry != Entry::Door && !matches!(o, Outcome::Hang) {
+    let door = matches!(entry, Entry::Door | Entry::DoorAux);
+    if deterministic && !door && !matches!(o, Outcome::Hang) {
         if let Some(raw) = gen_lp::mlp(&raw) {
             let name = match (entry, fixed) {
                 (Entry::Direct, true) => "milp-with-fixed", (Entry::Direct, false) => "milp-with",
                 (Entry::Builder, true) => "builder-microlp-fixed", (Entry::Builder, false) => "builder-microlp",
-                (Entry::Door, _) => unreachable!(),
+                (Entry::Door, _) | (Entry::DoorAux, _) => unreachable!(),
             };
             c.req = format!("{} {} {} {} {}", name, lms, enc_gap(gap.0), enc_limit(limit), raw);
         }
     }
-    if entry != Entry::Door {
-        c.oracle = format!("label {} {} {} {} {} {}", lms, enc_gap(gap.0), enc_limit(limit), res, gen_lp::result(base), raw_status(&raw));
-    }
+    // through the builder door the compiled model differs (derived bounds, `$` helper variables) but it is the SAME
+    // problem: the label is judged against the certified optimum of `lm`, the point is read by name
+    c.oracle = format!("label {} {} {} {} {} {}", lms, enc_gap(gap.0), enc_limit(limit), res, gen_lp::result(base), raw_status(&raw));
+
     let limit_tag = match limit { None => "limit-none".to_string(), Some(n) => format!("limit-{}ns", n) };
     c.tags = vec![format!("family-{}", fam), gap.1.to_string(), limit_tag,
-        match entry { Entry::Direct => "entry-milp-options".into(), Entry::Builder => "entry-builder-microlp".into(), Entry::Door => "entry-model-builder-solve-with".to_string() },
+        match entry { Entry::Direct => "entry-milp-options".into(), Entry::Builder => "entry-builder-microlp".into(), Entry::Door => "entry-model-builder-solve-with".to_string(), Entry::DoorAux => "entry-model-builder-with-helper-variables".to_string() },
         format!("microlp-status-{}", raw_status(&raw)),
         if fixed { "wrapper-reads-status".into() } else { "wrapper-ignores-status".into() },
         match &o {
@@ -138,6 +161,11 @@ fn one_entry(entry: Entry, lm: &LinearModel, lms: &str, base: &Outcome, gap: (Op
             Outcome::Hang => "answer-hang".into(),
         }];
     c.nontrivial = limit.is_some() || gap.0.is_some();
+    if door {
+        if let Outcome::Solution(sol) = &o {
+            c.tags.push(if sol.assignment.iter().any(|(n, _)| n.starts_with('$')) { "door-model-has-helper-variables".into() } else { "door-model-plain".into() });
+        }
+    }
     // the status (and everything else) must read the same through EVERY accessor: inherent, capability traits, BuilderSolution
     if let Outcome::Solution(sol) = &o {
         if let Some(d) = gen_lp::accessor_disagreement(sol) {
@@ -145,7 +173,7 @@ fn one_entry(entry: Entry, lm: &LinearModel, lms: &str, base: &Outcome, gap: (Op
             c.sig = Some("accessor-disagreement".into());
         }
     }
-    c.show = if entry == Entry::Direct { format!("solve_milp_lp_problem_with(gap {:?}, time_limit {:?} ns) on: {}", gap.0, limit, show_model(lm)) }
+    c.show = if door { format!("ModelBuilder … solve_with(Microlp gap {:?}, limit {:?} ns){} on: {}", gap.0, limit, if entry == Entry::DoorAux { " + max(x0,x1) <= 1e6" } else { "" }, show_model(lm)) } else if entry == Entry::Direct { format!("solve_milp_lp_problem_with(gap {:?}, time_limit {:?} ns) on: {}", gap.0, limit, show_model(lm)) }
              else { format!("Microlp::new().with_mip_gap({:?}).with_time_limit({:?} ns).solve on: {}", gap.0, limit, show_model(lm)) };
     out.push(c);
 }
@@ -207,18 +235,33 @@ pub fn generate(seed: u64, n: usize, _thorough: bool, _corpus: Option<&str>) -> 
             one_entry(Entry::Builder, &lm, &lms, &base, g, None, "small-magnitude-objective", fixed, &mut cases);
         }
     }
-    // searches stopped mid-way (incumbent known): the label through every accessor
-    // searches stopped mid-way
-    for _ in 0..(n / 20).max(2) {
-        let lm = mid_knapsack(&mut r);
+    // Satisfy models (no objective) x invalid and valid gaps x every door: invalid options are rejected there too
+    let mut r4 = Rng::new(seed ^ 0x5a715f);
+    for _ in 0..12 {
+        let lm = satisfy_integer(&mut r4);
+        let lms = sx::lin_model(&lm);
+        let base = child::solve(SolverKind::Milp, &lm, &Opts::default(), TIMEOUT);
+        for g in [gaps[5], gaps[6], gaps[7], gaps[1], gaps[0]] {
+            for e in [Entry::Direct, Entry::Builder, Entry::Door] {
+                one_entry(e, &lm, &lms, &base, g, None, "satisfy-integer", fixed, &mut cases);
+            }
+        }
+    }
+    // searches stopped mid-way (incumbent known), maximisation AND minimisation, also through the builder door with and
+    // without `$` helper variables
+    let mut r5 = Rng::new(seed ^ 0x31d5ea);
+    for k in 0..(n / 15).max(6) {
+        let lm = if k % 2 == 0 { mid_knapsack(&mut r5) } else { mid_cover(&mut r5) };
         let lms = sx::lin_model(&lm);
         let base = child::solve(SolverKind::Milp, &lm, &Opts::default(), TIMEOUT);
         for l in [Some(20_000u64), Some(100_000), Some(400_000), Some(2_000_000), None] {
             one(&lm, &lms, &base, gaps[0], l, "mid-search-knapsack", fixed, &mut cases);
         }
         one(&lm, &lms, &base, gaps[3], Some(100_000), "mid-search-knapsack", fixed, &mut cases);
-        one_entry(Entry::Door, &lm, &lms, &base, gaps[0], Some(100_000), "mid-search-knapsack", fixed, &mut cases);
-        one_entry(Entry::Door, &lm, &lms, &base, gaps[0], Some(400_000), "mid-search-knapsack", fixed, &mut cases);
+        for l in [Some(50_000u64), Some(100_000), Some(200_000), Some(400_000), Some(800_000)] {
+            one_entry(Entry::Door, &lm, &lms, &base, gaps[0], l, "mid-search-knapsack", fixed, &mut cases);
+            one_entry(Entry::DoorAux, &lm, &lms, &base, gaps[0], l, "mid-search-knapsack", fixed, &mut cases);
+        }
     }
     child::shutdown();
     cases
